@@ -78,6 +78,14 @@ func (reg *Reg) ManifestDelete(ctx context.Context, r ref.Ref, opts ...scheme.Ma
 	if resp.HTTPResponse().StatusCode != 202 {
 		return fmt.Errorf("failed to delete manifest %s: %w", r.CommonName(), reghttp.HTTPError(resp.HTTPResponse().StatusCode))
 	}
+	// a listing that ran while the delete was in flight may have cached the referrers including this manifest
+	if mc.Manifest != nil {
+		if mr, ok := mc.Manifest.(manifest.Subjecter); ok {
+			if sDesc, err := mr.GetSubject(); err == nil && sDesc != nil && sDesc.Digest != "" {
+				reg.cacheRL.Delete(r.SetDigest(sDesc.Digest.String()))
+			}
+		}
+	}
 
 	return nil
 }
